@@ -149,12 +149,49 @@ func sortedKeys[V any](m map[string]V) []string {
 	return ks
 }
 
+// toObject is bridge.ToObject plus spare capacity in every array, as arrays
+// built by a host with make(.., 0, n) or emptied in place have: Clone and Copy
+// must give every clone storage of its own however much room the original's
+// slice has left.
+func toObject(v *lang.Val, memo map[int]tengo.Object) tengo.Object {
+	o := bridge.ToObject(v, memo)
+	seen := map[tengo.Object]bool{}
+	var walk func(o tengo.Object)
+	walk = func(o tengo.Object) {
+		if o == nil || seen[o] {
+			return
+		}
+		seen[o] = true
+		switch x := o.(type) {
+		case *tengo.Array:
+			x.Value = append(make([]tengo.Object, 0, len(x.Value)+6), x.Value...)
+			for _, e := range x.Value {
+				walk(e)
+			}
+		case *tengo.ImmutableArray:
+			for _, e := range x.Value {
+				walk(e)
+			}
+		case *tengo.Map:
+			for _, e := range x.Value {
+				walk(e)
+			}
+		case *tengo.ImmutableMap:
+			for _, e := range x.Value {
+				walk(e)
+			}
+		}
+	}
+	walk(o)
+	return o
+}
+
 func compile(p *payload) (*tengo.Compiled, error) {
 	s := tengo.NewScript([]byte(p.Source))
 	s.SetImports(moduleMap(p))
 	memo := map[int]tengo.Object{}
 	for _, k := range sortedKeys(p.Base) {
-		if err := s.Add(k, bridge.ToObject(p.Base[k], memo)); err != nil {
+		if err := s.Add(k, toObject(p.Base[k], memo)); err != nil {
 			return nil, err
 		}
 	}
@@ -370,7 +407,7 @@ func runOnce(c *tengo.Compiled, ctx bool) (res string) {
 func setInputs(c *tengo.Compiled, in map[string]*lang.Val) string {
 	memo := map[int]tengo.Object{}
 	for _, k := range sortedKeys(in) {
-		if err := c.Set(k, bridge.ToObject(in[k], memo)); err != nil {
+		if err := c.Set(k, toObject(in[k], memo)); err != nil {
 			return "Set(" + k + "): " + err.Error()
 		}
 	}
